@@ -383,6 +383,12 @@ class MasterWorld:
             zkutils.put(admin, z.BLACKEDOUT_APPS, cfg['blacklists'][body[1]])
             masterapi.create_event(admin, 0, 'apps_blacklist', None)
             self.deliver(z.EVENTS)
+        elif kind == 'cell-':
+            masterapi.cell_remove_bucket(admin, body[1])
+            self.deliver(z.EVENTS)
+        elif kind == 'cell+':
+            masterapi.cell_insert_bucket(admin, body[1])
+            self.deliver(z.EVENTS)
         elif kind == 'tick':
             # time alone never makes the master run a cycle
             CLOCK.advance(body[1])
@@ -540,6 +546,12 @@ class MasterWorld:
             elif kind == 'srv+':
                 if e[1] in known:
                     continue
+            elif kind == 'cell-':
+                if e[1] not in self.children(z.CELL):
+                    continue
+            elif kind == 'cell+':
+                if e[1] in self.children(z.CELL):
+                    continue
             elif kind == 'alloc':
                 if self.alloc_variant == e[1]:
                     continue
@@ -626,6 +638,7 @@ class MasterWorld:
             tuple(sorted((g, tree.find(z.path.identity_group(g)).data)
                          for g in self.children(z.IDENTITY_GROUPS))),
             tuple(sorted(self.children(z.EVENTS))),
+            tuple(self.children(z.CELL)),
             tuple(sorted(ren(n) for n in self.children(z.FINISHED))),
             (tree.find(z.BLACKEDOUT_APPS).data
              if tree.find(z.BLACKEDOUT_APPS) else None),
